@@ -36,20 +36,103 @@ Definition holds_norep (k : ocase) : bool :=
 Definition check_norep (k : ocase) : bool * bool := (fst (check_vcf k), holds_norep k).
 Definition model_norep := model_vcf.
 
-(* ---- validate_params' per-population count check (relation params) --------- *)
+(* ---- validate_params' sample-info checks (relations params, cli) ------------ *)
 
-(* counts = number of sample-info lines per model population (header order) *)
-Record pcase := mkp { p_nsamples : Z; p_norep : bool; p_counts : list Z; p_raised : bool }.
+(* The harness interns strings by string EQUALITY (a python dict):
+     labels : the model header's labels in header order, "Admixed" (the first) = 0; labels that
+              occur only in the sample-info file get further numbers;
+     samples: >= 0 index of the sample in the reference panel, < 0 a name the panel lacks.
+   Two labels get the same number iff they are the same string - a label that merely contains,
+   starts with, ends with or case-folds to another one is a different label. *)
+Definition info_table := list (Z * Z).       (* (sample, label) per sample-info line, file order *)
 
-Definition must_reject (k : pcase) : bool :=
-  p_norep k && existsb (fun n => n <? p_nsamples k) (p_counts k).
+(* number of sample-info lines whose label matches p; [m] is the matching relation
+   (validate_params: equality of the strings = equality of the interned numbers) *)
+Definition count_by (m : Z -> Z -> bool) (p : Z) (info : info_table) : Z :=
+  lenZ (filter (fun r => m p (snd r)) info).
+Definition count_label := count_by Z.eqb.
 
-(* a population without any sample-info line is rejected in either mode *)
-Definition model_params (k : pcase) : bool :=
-  existsb (fun n => n =? 0) (p_counts k) || must_reject k.
+Definition memZ (x : Z) (l : list Z) : bool := existsb (Z.eqb x) l.
+
+(* verdict classes of validate_params on otherwise valid arguments *)
+Definition V_accept : Z := 0.
+Definition V_sample_absent : Z := 1.   (* Sample s from population p in sampleinfo file is not present in the vcf file *)
+Definition V_pop_absent : Z := 2.      (* Population p in model file is not present in the sample info file *)
+Definition V_insufficient : Z := 3.    (* Population p does not have enough samples to sample without replacement *)
+
+(* a verdict = (class, the population the message names; 0 when it names none) *)
+Definition verdict := (Z * Z)%type.
+
+(* first loop: a listed sample of a header population (Admixed included) that the panel lacks *)
+Definition offending (pops : list Z) (r : Z * Z) : bool := (fst r <? 0) && memZ (snd r) pops.
+
+(* second loop, over the header's source populations in header order *)
+Fixpoint check_model_pops (m : Z -> Z -> bool) (norep : bool) (n : Z) (info : info_table) (src : list Z) : verdict :=
+  match src with
+  | [] => (V_accept, 0)
+  | p :: r =>
+      if count_by m p info =? 0 then (V_pop_absent, p)
+      else if norep && (count_by m p info <? n) then (V_insufficient, p)
+      else check_model_pops m norep n info r
+  end.
+
+Definition validate_info_by (m : Z -> Z -> bool) (norep : bool) (n : Z) (pops : list Z) (info : info_table) : verdict :=
+  match find (offending pops) info with
+  | Some r => (V_sample_absent, snd r)
+  | None => check_model_pops m norep n info (tl pops)
+  end.
+
+Definition validate_info := validate_info_by Z.eqb.
+
+Record pcase := mkp {
+  p_nsamples : Z;            (* number of simulated samples (model header) *)
+  p_norep : bool;
+  p_pops : list Z;           (* header labels, Admixed first *)
+  p_info : info_table;
+  p_verdict : verdict        (* observed: class (9 = any other exception) and the population named *)
+}.
+
+Definition model_params (k : pcase) : verdict :=
+  validate_info (p_norep k) (p_nsamples k) (p_pops k) (p_info k).
+
+(* the clause: with --no_replacement some source population of the model has fewer
+   sample-info lines carrying exactly its label than there are simulated samples *)
+Definition insufficient (k : pcase) : bool :=
+  p_norep k && existsb (fun p => count_label p (p_info k) <? p_nsamples k) (tl (p_pops k)).
+
+(* rejected when insufficient; the not-enough-samples error only when insufficient *)
+Definition holds_params (k : pcase) : bool :=
+  (negb (insufficient k) || negb (fst (p_verdict k) =? V_accept))
+  && (negb (fst (p_verdict k) =? V_insufficient) || insufficient k).
 
 Definition check_params (k : pcase) : bool * bool :=
-  (Bool.eqb (model_params k) (p_raised k), negb (must_reject k) || p_raised k).
+  (pair_eqb Z.eqb Z.eqb (model_params k) (p_verdict k), holds_params k).
+
+(* ---- the simgenotype command with --no_replacement, end to end (relation cli) -- *)
+
+(* c_sim   : simulate_gt was entered
+   c_wrote : a breakpoint or genotype file exists afterwards
+   c_o     : the output_vcf call the command made (breakpoints as handed over, draws recorded,
+             output read back), when it made one *)
+Record ccase := mkc { c_p : pcase; c_sim : bool; c_wrote : bool; c_o : option C03_Check.ocase }.
+
+Definition accepted (v : verdict) : bool := fst v =? V_accept.
+
+Definition holds_cli (k : ccase) : bool :=
+  holds_params (c_p k)
+  && (negb (insufficient (c_p k)) || (negb (c_sim k) && negb (c_wrote k)))
+  && match c_o k with Some o => holds_norep o | None => true end.
+
+Definition check_cli (k : ccase) : bool * bool :=
+  (fst (check_params (c_p k))
+   && Bool.eqb (accepted (model_params (c_p k))) (c_sim k)
+   && match c_o k with
+      | Some o => accepted (model_params (c_p k)) && fst (check_vcf o)
+      | None => negb (accepted (model_params (c_p k)))
+      end,
+   holds_cli k).
+
+Definition model_cli (k : ccase) := (model_params (c_p k), option_map model_vcf (c_o k)).
 
 (* the norep relation's case type is C03's *)
 Definition ocase := C03_Check.ocase.
